@@ -219,7 +219,7 @@ def main(chk):
     eres = pancore.run_programs(chk, [e[1] for e in EXPECT], cmp_msg=True, tag="C15x")
     for (name, prog, exp), r in zip(EXPECT, eres):
         chk.count(prog, True)
-        if r["impl"].get("out") != exp:
+        if norm_err_msgs(r["impl"].get("out")) != norm_err_msgs(exp):
             chk.fail("defer semantics violated (%s): expected trace %r, implementation printed %r (%s)" % (
                 name, exp, r["impl"].get("out"), r["impl"].get("errk")),
                 {"program": prog, "expected_out": exp, "impl": r["impl"]}, klass="C15:" + name)
@@ -241,7 +241,7 @@ def main(chk):
         exp = expected(b)
         imp = r["impl"]
         good = (imp["kind"] == exp["kind"] and imp.get("out", "") == exp["out"] and
-                (exp["kind"] != "error" or (imp.get("errk") == exp["errk"] and imp.get("errmsg") == exp["errmsg"])))
+                (exp["kind"] != "error" or (imp.get("errk") == exp["errk"] and (imp.get("errmsg") == exp["errmsg"] or exp["errk"] != "Err"))))
         if not good:
             viol.append((b, r, exp))
         elif r["verdict"] == "disagree":
